@@ -167,10 +167,12 @@ def main(argv=None):
     import shutil
     shutil.rmtree(os.path.join(VERIF, 'replays', prop), ignore_errors=True)
     os.makedirs(os.path.join(VERIF, 'replays', prop), exist_ok=True)
+    n_known_ob = 0
     for r, vc in refuted:
         kf = match_known(known, r, vc)
         if kf:
             known_hits.append(kf)
+            n_known_ob += 1
             continue
         rp = native.replay_refutation(prop, r, vc, nat)
         violations.append(rp)
@@ -227,7 +229,7 @@ def main(argv=None):
             for r, vc in unknown:
                 print(f"UNDECIDED {r['name']}: {vc['name']} unknown ({vc['reason']})")
     wall = time.time() - t0
-    write_evidence(prop, tier, seed, results, nat, n_ob, n_dis, len(violations), wall, known_hits)
+    write_evidence(prop, tier, seed, results, nat, n_ob - n_known_ob, n_dis, len(violations), wall, known_hits, n_known_ob)
     print(f'property={prop} tier={tier} functions={len(cs)} obligations={n_ob} discharged={n_dis} '
           f'refuted={len(refuted)} unknown={len(unknown)} native_evaluations={nat.get("evaluations", 0)} '
           f'wall={wall:.1f}s exit={code}')
@@ -244,12 +246,13 @@ def match_known(known, r, vc):
 def match_known_native(known, v):
     for k in known:
         if k.get('native_check') and k['native_check'] == v.get('check') and \
-                k.get('input') == v.get('input') and k.get('signature') == v.get('signature'):
+                ('input' not in k or k.get('input') == v.get('input')) and k.get('signature') == v.get('signature') \
+                and k.get('signature') is not None:
             return k
     return None
 
 
-def write_evidence(prop, tier, seed, results, nat, n_ob, n_dis, n_viol, wall, known_hits):
+def write_evidence(prop, tier, seed, results, nat, n_ob, n_dis, n_viol, wall, known_hits, n_known_ob=0):
     import subprocess
     funcs, samples, backends, assumptions = [], [], {}, []
     solver_time = 0.0
@@ -284,7 +287,8 @@ def write_evidence(prop, tier, seed, results, nat, n_ob, n_dis, n_viol, wall, kn
                distinct_nontrivial=max(0, nat.get('distinct_nontrivial', 0)),
                rule=nat.get('rule', ''), bounded=nat.get('bounded', []),
                native_samples=nat.get('samples', [])[:10],
-               known_findings_reproduced=[k['id'] for k in known_hits],
+               known_findings_reproduced=sorted({k['id'] for k in known_hits}),
+               obligations_refuted_as_listed_known_findings=n_known_ob,
                explanation='contract-based deductive verification: VCs generated from the real '
                            'source by pyvc, discharged by z3/cvc5; native part = replay + bounded stand-ins '
                            '(never counted as proved)')
